@@ -49,7 +49,7 @@ Definition readFloat64 := readFixed 8 (fun x => x).
 
 (* ---------------------------------------------------------------------------------------------- varint *)
 
-(* (*big.Int).BitLen of |x| and (*big.Int).Bytes of x >= 0: big-endian magnitude without leading zeros *)
+(* big.Int BitLen of |x| and big.Int Bytes of x >= 0: big-endian magnitude without leading zeros *)
 Definition bitlen (x : Z) : Z := if x =? 0 then 0 else Z.log2 x + 1.
 Definition big_bytes (x : Z) : bytes := be_bytes (Z.to_nat ((bitlen x + 7) / 8)) x.
 
@@ -210,7 +210,15 @@ Definition lift_int (r : outcome (option Z)) (f : Z -> cval) : outcome cval :=
 (* Codec.Decode of a scalar codec, up to the canonical intermediate value (VNull when wasNull) *)
 Definition dec_scalar (s : scalar) (src : option bytes) : outcome cval :=
   match s with
-  | SBigint | SCounter | STime | STimestamp => lift_int (readInt64 src) VInt
+  | SBigint | SCounter | STimestamp => lift_int (readInt64 src) VInt
+  | STime =>
+      (* the untyped destination receives a time.Duration: ConvertNanosOfDayToDuration refuses values outside
+         [0, TimeMaxDuration = 24h - 1ns] (a typed *int64 destination would accept them) *)
+      o <-! readInt64 src;
+      match o with
+      | None => OK VNull
+      | Some z => if (z <? 0) || (86399999999999 <? z) then ERR else OK (VInt z)
+      end
   | SInt => lift_int (readInt32 src) VInt
   | SSmallint => lift_int (readInt16 src) VInt
   | STinyint => lift_int (readInt8 src) VInt
